@@ -75,7 +75,12 @@ def real_table(kind, m, cfg):
     finally:
         A.KmerFinder = real_kf
     if not isinstance(ad.kmer_finder, Recorder):
-        return None, False
+        return None, False, None
+    # AnywhereAdapter.match_to consults the prefilter only for reads that its own guard lets through: take the guard from
+    # the real method (it looks at the length only)
+    consulted = None
+    if kind == "anywhere":
+        consulted = [not ad._is_shorter_than_adapter("A" * n) for n in range(0, 3 * m + 3 * int(cfg["rate"] * m) + 5)]
     tab = rec["table"]
     # RightmostFrontAdapter builds its table for the reversed adapter and asks it about the reversed read
     mirrored = kind == "rightmost_front"
@@ -89,7 +94,7 @@ def real_table(kind, m, cfg):
                 raise ValueError("k-mer %r of the table is not a substring of the %sadapter" % (k, "reversed " if mirrored else ""))
             ivs.append((p, p + len(k)))
         out.append((s, e, ivs))
-    return out, mirrored
+    return out, mirrored, consulted
 
 
 # ---------------------------------------------------------------------------------- the solver query
@@ -111,7 +116,7 @@ def _placement(kind, m, a0, a1, r0, r1, n):
     raise ValueError(kind)
 
 
-def candidate(kind, m, cfg, tab, mirrored, timeout_ms=60000):
+def candidate(kind, m, cfg, tab, mirrored, timeout_ms=60000, consulted=None):
     """-> ('unsat' | 'unknown', seconds) | ('sat', seconds, shape)"""
     rate, mo, indels = cfg["rate"], cfg["min_overlap"], cfg["indels"]
     E = int(rate * m)
@@ -148,9 +153,9 @@ def candidate(kind, m, cfg, tab, mirrored, timeout_ms=60000):
         for j in range(k):
             s.add(z3.Implies(z3.And(act[k], act[j], typ[k] != 1, typ[j] != 1), pos[k] != pos[j]))
     s.add(_placement(model_kind, m, a0, a1, r0, r1, n))
-    if kind == "anywhere":
-        # AnywhereAdapter.match_to asks the prefilter only if the read cannot lie inside the adapter
-        s.add(n >= m + (E if indels else 0))
+    if consulted is not None:
+        # the read lengths for which the class asks the prefilter at all (evaluated on the real guard method)
+        s.add(z3.Or(*[n == i for i, c in enumerate(consulted) if c]))
     for (st, en, ivs) in tab:
         if st < 0:
             ws = z3.If(n + st < 0, zero, n + st)
@@ -243,7 +248,7 @@ def run_table_job(job):
                     continue
                 cfg = dict(rate=rate, adapter_wildcards=False, read_wildcards=False, indels=indels, min_overlap=mo)
                 try:
-                    tab, mirrored = real_table(kind, m, cfg)
+                    tab, mirrored, consulted = real_table(kind, m, cfg)
                 except Exception as e:  # noqa
                     inconclusive.append("%s: building the table failed: %r" % (AC.cfg_name(cfg), e))
                     continue
@@ -252,7 +257,7 @@ def run_table_job(job):
                     continue
                 res["extra"]["tables_built"] += 1
                 res["obligations"] += 1
-                out = candidate(kind, m, cfg, tab, mirrored)
+                out = candidate(kind, m, cfg, tab, mirrored, consulted=consulted)
                 res["queries"] += 1
                 res["solver_s"] += out[1]
                 res["max_query_s"] = max(res["max_query_s"], out[1])
